@@ -12,7 +12,7 @@ from eth_hash.auto import keccak  # noqa: E402
 import props.c12 as c12  # noqa: E402
 
 ID = "C13"
-LEAN_IMPORTS = ["PyTrie.Props.C13", "PyTrie.Props.NonVacuity", "PyTrie.Props.NonVacuity2", "PyTrie.Props.C13History"]
+LEAN_IMPORTS = ["PyTrie.Props.C13", "PyTrie.Props.NonVacuity", "PyTrie.Props.NonVacuity2", "PyTrie.Props.C13History", "PyTrie.Props.NonVacuity16"]
 THEOREMS = [
     "PyTrie.Props.C13.branch_refusal",
     "PyTrie.Props.C13.branch_refusal_iff",
@@ -46,6 +46,10 @@ THEOREMS = [
     "PyTrie.Props.C13.history_branch",
     "PyTrie.Props.C13.history_branch_sound",
     "PyTrie.Props.C13.history_nodes_and_witness",
+    "PyTrie.Props.NonVacuity16.acct_allStored",
+    "PyTrie.Props.NonVacuity16.value_is_a_stored_hash",
+    "PyTrie.Props.NonVacuity16.trie_nodes_do_not_follow_values",
+    "PyTrie.Props.NonVacuity16.witness_does_not_follow_values",
 ]
 RULE = ("binary tries built by generated histories over fixed-length and prefix-related key pools; for every pool key, its "
         "byte prefixes, extensions and bit-neighbours: get_branch (node list or InvalidKeyError), if_branch_valid on the honest "
